@@ -89,7 +89,7 @@ func New(s *vsched.Sched, cfg Config) *GW {
 	snA, snB := vnet.Pair("sn", false)
 	g.snGW = snA
 	_ = snB
-	sh := gateway.VNewShared(gateway.VConfig{User: cfg.User, Password: cfg.Password, AuthEnabled: cfg.Auth, RetryDelay: cfg.RetryDelay, RetryCount: cfg.RetryCount})
+	sh := gateway.VNewShared(gateway.VConfig{User: cfg.User, Password: freshPassword(cfg.Password), AuthEnabled: cfg.Auth, RetryDelay: cfg.RetryDelay, RetryCount: cfg.RetryCount})
 	g.StartWith(sh, cfg.Predefined)
 	return g
 }
@@ -156,7 +156,7 @@ func (g *GW) StartWith(sh *gateway.VShared, predefined topics.PredefinedTopics) 
 
 // NewPair builds two sessions sharing one configuration and one predefined map (C15).
 func NewPair(s *vsched.Sched, cfg Config) (*GW, *GW) {
-	sh := gateway.VNewShared(gateway.VConfig{User: cfg.User, Password: cfg.Password, AuthEnabled: cfg.Auth, RetryDelay: cfg.RetryDelay, RetryCount: cfg.RetryCount})
+	sh := gateway.VNewShared(gateway.VConfig{User: cfg.User, Password: freshPassword(cfg.Password), AuthEnabled: cfg.Auth, RetryDelay: cfg.RetryDelay, RetryCount: cfg.RetryCount})
 	a := &GW{S: s, Cfg: cfg}
 	b := &GW{S: s, Cfg: cfg}
 	a.snGW, _ = vnet.Pair("snA", false)
@@ -365,4 +365,13 @@ func Label(ev string) string {
 		return ev[:i]
 	}
 	return ev
+}
+
+// freshPassword: every run gets its own copy of the configured password, with spare capacity like a buffer read
+// from a file: code that writes through the slice shows within the run and cannot leak into the next run.
+func freshPassword(p []byte) []byte {
+	if p == nil {
+		return nil
+	}
+	return append(make([]byte, 0, len(p)+16), p...)
 }
